@@ -43,6 +43,9 @@ func genC03(kind string) func(r *core.Rng) any {
 			p = genPath(r, pathOpts{Kinds: kArc, MaxSegs: 3, MaxSubs: 2, Closed: 2, MaxRatio: 300, Scale: scale})
 		case "mild-elliptic-arcs":
 			p = genPath(r, pathOpts{Kinds: kArc, MaxSegs: 3, MaxSubs: 2, Closed: 2, MaxRatio: 1.5, Scale: scale})
+		case "grid": // integer coordinates and radii, circular arcs: exact-value shortcuts
+			p = genPath(r, pathOpts{Kinds: kLine | kArc, MaxSegs: 4, MaxSubs: 2, Closed: 2, Integer: true, CircArcs: true})
+			scale = 1
 		default: // mixed (mild Béziers + circular arcs): the composition of the clean classes
 			p = genPath(r, pathOpts{Kinds: kAll, MaxSegs: 5, MaxSubs: 3, Closed: 2, MildCurve: true, Inflect: -1, CircArcs: true, Scale: scale})
 		}
@@ -311,6 +314,7 @@ func init() {
 			{Name: "circular-arcs", Quick: 1500, Thorough: 30000, Gen: genC03("circular-arcs")},
 			{Name: "mild-elliptic-arcs", Quick: 1000, Thorough: 20000, Gen: genC03("mild-elliptic-arcs"), Note: "radii ratio <= 1.5; bound K*t + 2e-3*r (arc-to-cubic error floor, F-C03-ellipse-floor)"},
 			{Name: "mixed", Quick: 1500, Thorough: 30000, Gen: genC03("mixed")},
+			{Name: "grid", Quick: 1000, Thorough: 20000, Gen: genC03("grid")},
 			// demoted (DESIGN 4.5)
 			{Name: "end-inflection-cubics", Quick: 1000, Thorough: 20000, Gen: genC03("end-inflection-cubics"), WitnessOnly: true, Note: "cubic with an inflection point next to an end point: 1% flattened with errors up to 80000*t"},
 			{Name: "wild-beziers", Quick: 1500, Thorough: 40000, Gen: genC03("wild-beziers"), WitnessOnly: true, Note: "hairpins/cusps/loops: 8% beyond K*t (up to 4000*t), XMonotone 0.2% off"},
